@@ -336,7 +336,8 @@ pub fn final_obs(sim: &Sim) -> Vec<ObsRec> {
     for s in sim.live_slots() {
         let h = slots[s].as_ref().unwrap();
         v.push(ObsRec { event: usize::MAX - 1, kind: "final_value", slot: s, obs: Some(Obs::of(h)) });
-        v.push(ObsRec { event: usize::MAX - 1, kind: "final_grad", slot: s, obs: h.gradient().as_ref().map(Obs::of) });
+        let (g, panicked) = crate::sim::safe_grad(h);
+        v.push(ObsRec { event: usize::MAX - 1, kind: if panicked { "final_grad_read_panicked" } else { "final_grad" }, slot: s, obs: g });
     }
     v
 }
@@ -971,6 +972,12 @@ pub fn unobserved(out: &RunOut) -> (Vec<Violation>, u64) {
     }
     let base = final_obs(&out.sim);
     let fork = final_obs(&sim);
+    if fork.iter().any(|r| r.kind == "final_grad_read_panicked") {
+        let x = v("C10", "unobserved_history_panicked", "history without intermediate gradient reads".into(), out.trace.len().saturating_sub(1), format!("reading a gradient at the end of the same history, run without intermediate reads, panics: {}", crate::last_panic()));
+        let mut y = x.clone();
+        y.prop = "C01";
+        return (vec![x, y], 1);
+    }
     let fmap: BTreeMap<(&'static str, Slot), &Option<Obs>> = fork.iter().map(|r| ((r.kind, r.slot), &r.obs)).collect();
     for r in &base {
         if let Some(o) = fmap.get(&(r.kind, r.slot)) {
